@@ -1440,8 +1440,12 @@ class ClientRequest(ClientRequestBase):
         if self.compress:
             writer.enable_compression(self.compress)
 
-        # chunked=False means "do not chunk": only a true value switches the framing
-        if self.chunked:
+        # chunked=False means "do not chunk": only a true value switches the framing.
+        # The body is chunk-encoded only if the head announces it: a request that
+        # ends up without a body (GET with chunked=True and no data, or
+        # update_body(None)) carries no Transfer-Encoding header, and a bare
+        # last-chunk would follow a head that frames nothing.
+        if self.chunked and hdrs.TRANSFER_ENCODING in self.headers:
             writer.enable_chunking()
         return writer
 
